@@ -245,6 +245,117 @@ theorem strat_commute_mixing_defined (m : Model α) (s1 s2 : Strat α) (m12 m21 
 
 end mixing
 
+/-! ## 4. rates (partial) -/
+
+section rates
+variable {α : Type} [Field α] [LT α] [DecidableLT α]
+
+/-- the realised weights of corresponding flows agree ALSO when the two models are evaluated in their
+own state vectors, provided the adjustments are `Multiply`-only and the weight does not read the
+compartment values (`usesState`: no `CompartmentValues` node; parameters and time are allowed) -/
+theorem corr_weight_states {s1 s2 : Strat α} (hm1 : mulOnly s1 = true) (hm2 : mulOnly s2 = true) {g g' : Flow α}
+    (h : FlowCorr (DeclaredAdj s1) (DeclaredAdj s2) g g') (hfree : usesState (realised g) = false)
+    (p : List (String × α)) (t : α) (x x' : List α) :
+    (realised g).eval ⟨p, t, x⟩ = (realised g').eval ⟨p, t, x'⟩ := by
+  rw [Invariance.eval_state_indep p t x x' _ hfree]
+  obtain ⟨k, n, pr, sr, ds, base, x1, x2, a1, a2, q1, q2⟩ := h
+  exact (corr_weight ⟨k, n, pr, sr, ds, base, x1, x2, a1, a2,
+    fun y hy => declared_isMul hm1 y (q1 y hy), fun y hy => declared_isMul hm2 y (q2 y hy)⟩ _).1
+
+/-- **`C15StratComm.strat_commute_rates_partial`** — the rate laws.  `m` satisfies the structural
+invariant (`Spec.Inv`: true of every reachable model), the strata of `s1`, `s2` are distinct, both
+orders are accepted and both resulting models have index tables.  Put both models in the same state
+(`semState pop`: the population as a function of the compartment read as name + strata lookup), and
+give them weights `W12`/`W21` and infection multipliers `M12`/`M21` that agree on corresponding flows.
+Then
+* corresponding flows have the same rate (`rateBy`: weight × source population (or total population,
+  or 1) × multiplier, × total deaths for replacement births),
+* `flowRates` of each model is that rate, flow by flow,
+* the compartment rates agree at corresponding positions of the two compartment lists.
+
+PARTIAL with respect to (4): the agreement of the infection multipliers of corresponding flows (`hM`,
+the force of infection of the two models under the category correspondence of `strat_commute_mixing`)
+is a HYPOTHESIS here, not a conclusion.  It is vacuous for models without infection flows
+(`strat_commute_rhs_noinfection`). -/
+theorem strat_commute_rates_partial (m : Model α) (s1 s2 : Strat α) (m12 m21 : Model α)
+    (hne : s1.name ≠ s2.name) (hk1 : s1.kind ≠ .age) (hk2 : s2.kind ≠ .age)
+    (hinv : Inv m) (hs1 : s1.strata.Nodup) (hs2 : s2.strata.Nodup)
+    (h12 : (stratifyWith m s1 >>= fun ma => stratifyWith ma s2) = .ok m12)
+    (h21 : (stratifyWith m s2 >>= fun mb => stratifyWith mb s1) = .ok m21)
+    (b12 b21 : Backend) (hp12 : prepare m12 = .ok b12) (hp21 : prepare m21 = .ok b21)
+    (W12 W21 M12 M21 : Flow α → α)
+    (hW : ∀ g g', g ∈ m12.flows → FlowCorr (DeclaredAdj s1) (DeclaredAdj s2) g g' → W12 g = W21 g')
+    (hM : ∀ g g', g ∈ m12.flows → FlowCorr (DeclaredAdj s1) (DeclaredAdj s2) g g' →
+      isInfection g.kind = true → M12 g = M21 g')
+    (pop : String × (String → Option String) → α) :
+    (∃ pairs : List (Flow α × Flow α), pairs.map (·.1) = m12.flows ∧ (pairs.map (·.2)).Perm m21.flows ∧
+      ∀ p ∈ pairs, FlowCorr (DeclaredAdj s1) (DeclaredAdj s2) p.1 p.2 ∧
+        rateBy m12 W12 (semState pop m12.comps) M12 p.1 = rateBy m21 W21 (semState pop m21.comps) M21 p.2) ∧
+    flowRates b12 (m12.flows.map W12) (semState pop m12.comps) ((m12.flows.filter (fun f => isInfection f.kind)).map M12)
+      = m12.flows.map (rateBy m12 W12 (semState pop m12.comps) M12) ∧
+    flowRates b21 (m21.flows.map W21) (semState pop m21.comps) ((m21.flows.filter (fun f => isInfection f.kind)).map M21)
+      = m21.flows.map (rateBy m21 W21 (semState pop m21.comps) M21) ∧
+    ∀ (i i' : Nat) (hi : i < m12.comps.length) (hi' : i' < m21.comps.length),
+      compSem m12.comps[i] = compSem m21.comps[i'] →
+      (compRates b12 (flowRates b12 (m12.flows.map W12) (semState pop m12.comps)
+          ((m12.flows.filter (fun f => isInfection f.kind)).map M12))).getD i 0
+        = (compRates b21 (flowRates b21 (m21.flows.map W21) (semState pop m21.comps)
+          ((m21.flows.filter (fun f => isInfection f.kind)).map M21))).getD i' 0 := by
+  have hc := strat_commute m s1 s2 m12 m21 hne hk1 hk2 (Structure.shape_lite hinv) h12 h21
+  obtain ⟨ma, ha, hab⟩ := (InvFlowOrder.bind_ok_iff _ _ _).1 h12
+  have hinv12 : Inv m12 := Structure.inv_stratifyWith (Structure.inv_stratifyWith hinv hs1 ha) hs2 hab
+  obtain ⟨pairs, S, hcorr⟩ := ratesSetup_of_commutes hc hinv12 hp12 hp21
+  have hW' : ∀ p ∈ pairs, W12 p.1 = W21 p.2 := fun p hp => hW _ _ (S.mem hp).1 (hcorr p hp)
+  have hM' : ∀ p ∈ pairs, isInfection p.1.kind = true → M12 p.1 = M21 p.2 :=
+    fun p hp => hM _ _ (S.mem hp).1 (hcorr p hp)
+  refine ⟨⟨pairs, S.fst, S.snd, fun p hp => ⟨hcorr p hp, rateBy_corr S pop W12 W21 M12 M21 hW' hM' hp⟩⟩,
+    Invariance.flowRates_eq_map S.hb _ _ _, Invariance.flowRates_eq_map S.hb' _ _ _, ?_⟩
+  intro i i' hi hi' hsem
+  exact compRates_corr S pop W12 W21 M12 M21 hW' hM' ⟨hi, hi', hsem⟩
+
+/-- **(4) for models without infection flows.**  Hypotheses of `strat_commute_rates_partial`; the flow
+adjustments of `s1`, `s2` are `Multiply`-only; no flow of the stratified model is an infection flow and
+no realised weight reads the compartment values (both decidable).  Evaluate the right-hand sides of
+the two models (`Run.rhs`, i.e. `get_comp_rates`) in the same state, parameters and time.  Where both
+are defined, they agree at corresponding positions of the two compartment lists.
+(Not covered: that the two right-hand sides are defined TOGETHER — the weights and the mixing matrix
+are, but the compartment-infectiousness stage iterates over the swapped stratification lists.) -/
+theorem strat_commute_rhs_noinfection (m : Model α) (s1 s2 : Strat α) (m12 m21 : Model α)
+    (hne : s1.name ≠ s2.name) (hk1 : s1.kind ≠ .age) (hk2 : s2.kind ≠ .age)
+    (hinv : Inv m) (hs1 : s1.strata.Nodup) (hs2 : s2.strata.Nodup)
+    (hm1 : mulOnly s1 = true) (hm2 : mulOnly s2 = true)
+    (h12 : (stratifyWith m s1 >>= fun ma => stratifyWith ma s2) = .ok m12)
+    (h21 : (stratifyWith m s2 >>= fun mb => stratifyWith mb s1) = .ok m21)
+    (b12 b21 : Backend) (hp12 : prepare m12 = .ok b12) (hp21 : prepare m21 = .ok b21)
+    (hno : m12.flows.all (fun f => !isInfection f.kind) = true)
+    (hfree : m12.flows.all (fun f => !usesState (realised f)) = true)
+    (pop : String × (String → Option String) → α) (p : List (String × α)) (t : α) (r12 r21 : List α)
+    (hr12 : rhs m12 b12 p (semState pop m12.comps) t = some r12)
+    (hr21 : rhs m21 b21 p (semState pop m21.comps) t = some r21) :
+    ∀ (i i' : Nat) (hi : i < m12.comps.length) (hi' : i' < m21.comps.length),
+      compSem m12.comps[i] = compSem m21.comps[i'] → r12.getD i 0 = r21.getD i' 0 := by
+  have hc := strat_commute m s1 s2 m12 m21 hne hk1 hk2 (Structure.shape_lite hinv) h12 h21
+  obtain ⟨ma, ha, hab⟩ := (InvFlowOrder.bind_ok_iff _ _ _).1 h12
+  have hinv12 : Inv m12 := Structure.inv_stratifyWith (Structure.inv_stratifyWith hinv hs1 ha) hs2 hab
+  obtain ⟨pairs, S, hcorr⟩ := ratesSetup_of_commutes hc hinv12 hp12 hp21
+  -- no infection flows in `m21` either
+  have hno21 : m21.flows.all (fun f => !isInfection f.kind) = true := by
+    rw [List.all_eq_true]
+    intro g' hg'
+    obtain ⟨q, hq, rfl⟩ := List.mem_map.1 (S.snd.mem_iff.2 hg')
+    have := List.all_eq_true.1 hno q.1 (S.mem hq).1
+    rw [← (S.ends q hq).1]; exact this
+  rw [rhs_noinf S.hb hno p _ t r12 hr12, rhs_noinf S.hb' hno21 p _ t r21 hr21, cleanV_semState, cleanV_semState]
+  intro i i' hi hi' hsem
+  refine compRates_corr S (fun c => clean (pop c)) _ _ _ _ (fun q hq => ?_) (fun _ _ _ => rfl) ⟨hi, hi', hsem⟩
+  have hf : usesState (realised q.1) = false := by
+    have := List.all_eq_true.1 hfree q.1 (S.mem hq).1
+    simpa using this
+  show ((realised q.1).eval _).getD 0 = ((realised q.2).eval _).getD 0
+  rw [corr_weight_states hm1 hm2 (hcorr q hq) hf p t _ (semState (fun c => clean (pop c)) m21.comps)]
+
+end rates
+
 /-! ## non-vacuity: an S/I/R model on `Rat`, a 2-stratum and a 3-stratum plain stratification -/
 
 section examples
@@ -467,5 +578,8 @@ different names.  (`String.toInt?` does not reduce in the kernel, hence no `deci
 #print axioms strat_commute_mixing_one
 #print axioms strat_commute_mixing
 #print axioms strat_commute_mixing_defined
+#print axioms corr_weight_states
+#print axioms strat_commute_rates_partial
+#print axioms strat_commute_rhs_noinfection
 
 end Summer.Props.C15StratComm
